@@ -72,17 +72,18 @@ func c08Cases(seed uint64, tier string) []core.Case {
 }
 
 type c08Run struct {
-	spec        c08Spec
-	e           *fix.EvmWorld
-	rng         *rand.Rand
-	res         *core.CaseResult
-	verb        bool
-	holders     map[common.Address]string
-	conv, progs int
-	parked      []uint64
-	log         []string
-	lastMixed   string
-	broken      bool
+	addedAliases []string // aliases governance has given the module token and not removed yet
+	spec         c08Spec
+	e            *fix.EvmWorld
+	rng          *rand.Rand
+	res          *core.CaseResult
+	verb         bool
+	holders      map[common.Address]string
+	conv, progs  int
+	parked       []uint64
+	log          []string
+	lastMixed    string
+	broken       bool
 }
 
 func (r *c08Run) logf(f string, a ...interface{}) {
@@ -500,7 +501,19 @@ func (r *c08Run) govUpdate() {
 	gov := chain.GovAuthority()
 	var res chain.Result
 	var what string
-	switch r.rng.IntN(4) {
+	switch r.rng.IntN(5) {
+	case 4:
+		// remove the oldest of the aliases added earlier (not the last of the list once two are there)
+		if len(r.addedAliases) == 0 {
+			return
+		}
+		al := r.addedAliases[0]
+		what = fmt.Sprintf("remove alias %s (one of %d added)", al, len(r.addedAliases))
+		res = c.Msg(&erc20types.MsgUpdateDenomAlias{Authority: gov, Denom: e.USDT.Base, Alias: al})
+		if res.OK() {
+			r.addedAliases = r.addedAliases[1:]
+			r.res.Count("aliases_removed_from_the_middle", 1)
+		}
 	case 0:
 		t := r.tok()
 		what = "toggle " + t.Symbol
@@ -515,8 +528,10 @@ func (r *c08Run) govUpdate() {
 		}
 		what = "add alias " + al
 		res = c.Msg(&erc20types.MsgUpdateDenomAlias{Authority: gov, Denom: e.USDT.Base, Alias: al})
-		if res.OK() && r.rng.IntN(2) == 0 {
+		if res.OK() && r.rng.IntN(3) == 0 {
 			c.Msg(&erc20types.MsgUpdateDenomAlias{Authority: gov, Denom: e.USDT.Base, Alias: al}) // remove again
+		} else if res.OK() {
+			r.addedAliases = append(r.addedAliases, al)
 		}
 	case 2:
 		sym := fmt.Sprintf("T%d", r.rng.IntN(1_000_000))
